@@ -194,5 +194,74 @@ Example C01_per_hypotheses_inhabited : ltac:(let T := type of per_hypotheses_inh
 Proof. exact per_hypotheses_inhabited. Qed.
 Print Assumptions C01_per_hypotheses_inhabited.
 
-(* OPEN: C01_per_reencode (byte-identical re-encoding for aligned PER) is not proved; the
-   property test on /repo exercises it. *)
+(** ------------------------------------------------------------------
+    Aligned PER, third clause: re-encoding the decoded value gives the identical octets, from every encoder
+    state.  [preenc_ok] is [reenc_ok] clause for clause with the aligned group encoder (Per/PerReenc.v); the
+    empty-group refutation is the aligned face of the open finding per-addition-group-zero-width. *)
+From Asn1V Require Import Per.PerReenc Per.PerReencEx.
+
+Theorem C01_per_reencode_state :
+  forall numeric e fuel t v st st',
+    preenc_ok numeric e fuel t v = true ->
+    penc_ty numeric e fuel t v st = Ok st' ->
+    penc_ty numeric e fuel t (pnorm numeric e fuel t v) st = Ok st'.
+Proof. exact per_reencode_state. Qed.
+Print Assumptions C01_per_reencode_state.
+
+Theorem C01_per_reencode :
+  forall numeric fuel e t v data,
+    preenc_ok numeric e fuel t v = true ->
+    per_encode numeric fuel e t v = Ok data ->
+    per_encode numeric fuel e t (pnorm numeric e fuel t v) = Ok data.
+Proof. exact per_reencode. Qed.
+Print Assumptions C01_per_reencode.
+
+Theorem C01_per_decode_reencode :
+  forall numeric fuel e t v data,
+    preenc_ok numeric e fuel t v = true ->
+    per_encode numeric fuel e t v = Ok data ->
+    exists v' n, per_decode numeric fuel e t data = Ok (v', n) /\ per_encode numeric fuel e t v' = Ok data.
+Proof. exact per_decode_reencode. Qed.
+Print Assumptions C01_per_decode_reencode.
+
+Example C01_preenc_ok_inhabited : ltac:(let T := type of preenc_ok_example in exact T).
+Proof. exact preenc_ok_example. Qed.
+Print Assumptions C01_preenc_ok_inhabited.
+Example C01_per_reencode_empty_group_refuted : ltac:(let T := type of per_reencode_empty_group_refuted in exact T).
+Proof. exact per_reencode_empty_group_refuted. Qed.
+Print Assumptions C01_per_reencode_empty_group_refuted.
+
+(** ------------------------------------------------------------------
+    DER and BER, third clause (Ber/DerReencode.v), no side condition: the value the decoder returns re-encodes to
+    the identical octets ([C01_der_roundtrip_reencode] states all three clauses of the property for DER at once);
+    BER is not canonical, but the decoded value re-encodes to the octets the value encoded to.
+    (statements = the types of the theorems of Ber/DerReencode.v; written out in notes/BER-reencode-ext.md) *)
+From Asn1V Require Ber.DerReencode.
+
+Theorem C01_der_reencode : ltac:(let T := type of Asn1V.Ber.DerReencode.der_reencode in exact T).
+Proof. exact Asn1V.Ber.DerReencode.der_reencode. Qed.
+Print Assumptions C01_der_reencode.
+
+Theorem C01_der_roundtrip_reencode : ltac:(let T := type of Asn1V.Ber.DerReencode.der_roundtrip_reencode in exact T).
+Proof. exact Asn1V.Ber.DerReencode.der_roundtrip_reencode. Qed.
+Print Assumptions C01_der_roundtrip_reencode.
+
+Theorem C01_der_decode_reencode : ltac:(let T := type of Asn1V.Ber.DerReencode.der_decode_reencode in exact T).
+Proof. exact Asn1V.Ber.DerReencode.der_decode_reencode. Qed.
+Print Assumptions C01_der_decode_reencode.
+
+Theorem C01_der_ber_decode_reencode : ltac:(let T := type of Asn1V.Ber.DerReencode.der_ber_decode_reencode in exact T).
+Proof. exact Asn1V.Ber.DerReencode.der_ber_decode_reencode. Qed.
+Print Assumptions C01_der_ber_decode_reencode.
+
+Theorem C01_ber_reencode : ltac:(let T := type of Asn1V.Ber.DerReencode.ber_reencode in exact T).
+Proof. exact Asn1V.Ber.DerReencode.ber_reencode. Qed.
+Print Assumptions C01_ber_reencode.
+
+Theorem C01_ber_roundtrip_reencode : ltac:(let T := type of Asn1V.Ber.DerReencode.ber_roundtrip_reencode in exact T).
+Proof. exact Asn1V.Ber.DerReencode.ber_roundtrip_reencode. Qed.
+Print Assumptions C01_ber_roundtrip_reencode.
+
+Example C01_der_reencode_hypotheses_inhabited : ltac:(let T := type of Asn1V.Ber.DerReencode.ex_reencode_hypotheses in exact T).
+Proof. exact Asn1V.Ber.DerReencode.ex_reencode_hypotheses. Qed.
+Print Assumptions C01_der_reencode_hypotheses_inhabited.
